@@ -70,9 +70,24 @@ def case_st(draw, shapes):
             t["elements"] = elements
         if prune:
             t["prune"] = True
+        hidden_refs = list(elements)
+        derived = [it for it in var.get("items", []) if it.get("derived")] \
+            if var["type"] == "mr" else []
+        if derived and draw(st.integers(0, 2)) == 0:
+            # a derived item is suppressed by a copy of its (variable-level) insertion
+            # carrying "hide": true - an element transform for the same item (a fill, a
+            # rename) does not ask for it to be shown again
+            it = draw(st.sampled_from(derived))
+            t.setdefault("insertions", []).append(
+                {"function": "any_selected", "name": it["sid"], "anchor": "top",
+                 "args": [], "hide": True})
+            extra = draw(st.sampled_from([None, {"fill": "#ff0000"}, {"name": "REN"}, {}]))
+            if extra is not None and it["alias"] not in (t.get("elements") or {}):
+                t.setdefault("elements", {})[it["alias"]] = extra
+            hidden_refs.append(it["alias"])
         if t:
             tx[name] = t
-        meta[name] = {"insertions": inforce, "hidden_refs": list(elements), "prune": prune}
+        meta[name] = {"insertions": inforce, "hidden_refs": hidden_refs, "prune": prune}
     sc["transforms"] = tx
     sc["meta"] = meta
     return sc
